@@ -179,7 +179,7 @@ def gen_params(r: random.Random, name: str) -> dict:
     if name == 'split':
         return {'factor': r.choice([2, 2, 3, 4, 'n']), 'strategy': r.choice(['PEEL', 'PEEL', 'STRICT'])}
     if name == 'unroll_while':
-        return {'times': r.choice([1, 1, 2])}
+        return {'times': r.choice([1, 1, 2, 3])}
     if name == 'inline':
         return {'recursive': r.random() < 0.7}
     if name == 'unfold_overflow':
